@@ -27,11 +27,16 @@ class C07Identity(TrackScenario):
             for counts in ([1, 1], [2, 1], [1, 2]):
                 for grid in ("none", "pn"):
                     out.append(dict(counts=counts, dim=2, grid=grid, method=method, _cost=2 ** sum(counts)))
+        # three living tracks competing for two droplets (greedy matching order matters)
+        out.append(dict(counts=[3, 2], dim=1, grid="none", method="distance", _cost=40))
+        out.append(dict(counts=[2, 3], dim=1, grid="none", method="distance", _cost=40))
         if tier == "thorough":
             for method in ("overlap", "distance"):
                 for grid in ("none", "pn"):
                     out.append(dict(counts=[2, 2], dim=2, grid=grid, method=method, _cost=64))
                 for counts in ([3, 2], [2, 3], [3, 3], [2, 2, 2, 1]):
+                    if method == "distance" and counts in ([3, 2], [2, 3]):
+                        continue
                     out.append(dict(counts=counts, dim=1, grid="none", method=method, _cost=2 ** sum(counts)))
                 out.append(dict(counts=[2, 2], dim=2, grid="pp", method=method, _cost=64))
         return out
